@@ -36,11 +36,12 @@ def check_cycle(snap):
     out = []
     ups = {i: (u, st) for i, u, st in snap['uploads']}
     users = snap['users']
-    processing = [i for i, (u, st) in ups.items() if st in ('INITIALIZING', 'UPLOADING')]
+    # an upload whose initialise task has been created is being initialised, even before its state says so
+    processing = [i for i, (u, st) in ups.items() if st in ('INITIALIZING', 'UPLOADING') or i in snap.get('negotiating', [])]
     busy_users = {ups[i][0] for i in processing}
     free = max(0, snap['slots'] - len(processing))
     elig_users = sorted({u for i, (u, st) in ups.items()
-                         if st == 'QUEUED' and users[u][0] != 'OFFLINE' and u not in busy_users})
+                         if st == 'QUEUED' and i not in snap.get('negotiating', []) and users[u][0] != 'OFFLINE' and u not in busy_users})
     S = snap['created']
     if len(S) > free:
         out.append(('cycle-starts-more-than-free-slots', f'{len(S)} uploads started with {free} free slots'))
@@ -55,6 +56,7 @@ def check_cycle(snap):
     for i in S:
         if i in snap.get('negotiating', []):
             out.append(('upload-negotiation-started-twice', f'upload {i} already has a running initialize-upload task and is started again'))
+    S = [i for i in S if i not in snap.get('negotiating', [])]
     su = [ups[i][0] for i in S]
     if len(set(su)) != len(su):
         out.append(('two-uploads-one-user-in-cycle', f'one cycle started two uploads of one user: {su}'))
@@ -195,6 +197,28 @@ class Driver:
             for key, text in check_cycle(snap):
                 self.viol.append((key, text, self.nops))
             evs.append('Cycle')
+        elif kind == 'CC':     # two cycles back to back, inside one loop iteration, nothing in between
+            snaps = []
+
+            def snap_now():
+                snaps.append({'slots': tw.w.settings.transfers.limits.upload_slots, 'uploads': self.snapshot_uploads(),
+                              'users': self.users_now(), 'ncreated': len(tw.created),
+                              'negotiating': [i for i, t in enumerate(self.ts) if t._transfer_task is not None and not t._transfer_task.done()]})
+            tw.created.clear()
+            for _ in range(2):
+                tw.w.loop.call_soon(snap_now)
+                tw.w.loop.call_soon(tw.tm.manage_transfers)
+            tw.w.loop.call_soon(snap_now)
+            tw.w.loop.run_ready(1)
+            allc = [self.ts.index(t) for k, t in tw.created if k == 'U']
+            sel = allc
+            for j in range(2):
+                sn = snaps[j]
+                sn['created'] = allc[sn['ncreated']:snaps[j + 1]['ncreated']]
+                for key, text in check_cycle(sn):
+                    self.viol.append((key, text, self.nops))
+            tw.a1_violations.clear()     # the premise A1 is deliberately not respected by this operation
+            evs += ['Cycle', 'Cycle']
         elif kind == 'R':
             pass
         elif kind == 'Reply':
@@ -304,8 +328,10 @@ def next_op(rng, d: Driver, free_running=False):
         return ['T', rng.choice([0.0, 0.01, 0.05, 0.06, 0.06, 0.3, 1.0, 31.0])]
     if r < 0.22 or n == 0:
         return ['Q', rng.randrange(nu)]
-    if r < 0.47 and not free_running:
+    if r < 0.43 and not free_running:
         return ['C']
+    if r < 0.47 and not free_running:
+        return ['CC']
     if r < 0.50:
         return ['R']
     if r < 0.54 and d.pop.get('hold'):
@@ -353,7 +379,7 @@ def lowering_script(rng):
     order = list(range(5))
     rng.shuffle(order)
     ops += [['Q', u] for u in order] + [['Q', rng.randrange(5)] for _ in range(rng.randrange(0, 3))]
-    ops += [['C'], ['R'], ['S', rng.randrange(0, k)], ['C'], ['R']]
+    ops += [rng.choice([['C'], ['C'], ['CC']]), ['R'], ['S', rng.randrange(0, k)], rng.choice([['C'], ['CC']]), ['R']]
     return pop, ops
 
 
@@ -504,7 +530,7 @@ def run(run: Run):
         started = sum(len(sel) for _, sel, _ in rows)
         run.case({'pop': pop, 'ops': ops}, nontrivial=started > 0 and len(rows[-1][2]) > 1, kind='driven')
         run.count('ops', len(ops))
-        run.count('cycles', sum(1 for o in ops if o[0] == 'C'))
+        run.count('cycles', sum(1 for o in ops if o[0] == 'C') + 2 * sum(1 for o in ops if o[0] == 'CC'))
         run.count('uploads_started', started)
         cases.append((pop, ops, rows))
         report(viol, pop, ops, 'driven')
